@@ -24,7 +24,7 @@ from .sym import Sym, SInt, SReal, SBool, Unsupported, has_sym, deep_eq, deep_lt
 from .containers import SDict, SSet
 
 _TRANSPARENT_MODULES = ('builtins', 'itertools', 'operator', '_operator', 'functools', '_functools',
-                        'numpy', 'collections', '_collections', 'copy', 'typing', 'math', 'pyvc')
+                        'numpy', 'collections', '_collections', 'copy', 'typing', 'math', 'pyvc', 'spec', 'contracts')
 
 
 def transparent(fn):
